@@ -29,7 +29,7 @@ fn main() {
                 stuck += 1;
                 if stuck >= 20 {
                     eprintln!("watchdog: no progress for 20 s");
-                    std::process::exit(97);
+                    std::process::abort();
                 }
             } else {
                 stuck = 0;
@@ -64,6 +64,10 @@ fn main() {
             }),
             Some("K") => {
                 // K id debug fn args...
+                case_no += 1;
+                if case_no <= from {
+                    continue;
+                }
                 writeln!(w, "B {}", toks[1]).unwrap();
                 writeln!(w, "K {} {}", toks[1], kernel::run_k(&toks[3..])).unwrap();
             }
